@@ -185,6 +185,8 @@ def _progs():
         P["over-neutral atom " + f] = ("n %s/n" % f, lambda v, w, n, fn=fn: fn(n, n), None)
         P["each2 atoms " + f] = ("n %s'n" % f, lambda v, w, n, fn=fn: fn(n, n), None)
         P["each-pair atom " + f] = ("%s:'n" % f, lambda v, w, n: n, None)
+        P["each-left atom " + f] = ("n %s:\\k" % f, lambda v, w, n, fn=fn: fn(n, len(w)), None)       # an atom b: a f:\b is f(a;b)
+        P["each-right atom " + f] = ("n %s:/k" % f, lambda v, w, n, fn=fn: fn(len(w), n), None)
     for m in ("-", "h", "ph", "neg", "g5", "{x*2}"):
         fn = MO[m]
         P["each " + m] = ("%s'v" % m, lambda v, w, n, fn=fn: x_each(fn, v), None)
@@ -218,7 +220,7 @@ def _progs():
         P["over matrix " + f] = ("%s/m" % f, lambda v, w, n, fn=fn: x_over(fn, [v, w]), lambda v, w, n: len(v) == len(w) and len(v) > 0)
         P["scan matrix " + f] = ("%s\\m" % f, lambda v, w, n, fn=fn: x_scan(fn, [v, w]), lambda v, w, n: len(v) == len(w) and len(v) > 0)
     # nested (object) vectors
-    for f in ("+", "-", "*", "g"):
+    for f in ("+", "-", "*", "g", "|", "&"):
         fn = DY[f]
         P["over nested " + f] = ("%s/nest" % f, lambda v, w, n, fn=fn: x_over(fn, [n, [n + 1, n], n]), None)
         P["scan nested " + f] = ("%s\\nest" % f, lambda v, w, n, fn=fn: x_scan(fn, [n, [n + 1, n], n]), None)
